@@ -421,7 +421,37 @@ def do_arith(ctx, t, data, lay, orig_bytes):
             ctx.violation("structural-accepted/descriptor-swap", "descriptors 0 and 1 swapped, file loaded")
 
 
+def do_offsets(ctx, t, data, lay):
+    """Systematic part of the data-region workload: every ragged offset column (also of EMPTY ragged columns, whose
+    entries must all be zero) gets its first, second and last entries altered."""
+    loaders = ["TableCollection.load", "tskit.load", "TableCollection.load(skip_reference_sequence)"]
+    k = 0
+    for it in lay.items:
+        if not it["key"].endswith("_offset") or it["array_len"] == 0:
+            continue
+        ts_ = TYPE_SIZE[it["type"]]
+        n = it["array_len"]
+        for idx in sorted({0, 1, n // 2, n - 2, n - 1} & set(range(n))):
+            off = it["array_start"] + idx * ts_
+            for delta in (1, 7, 0x80):
+                cur = int.from_bytes(data[off:off + ts_], "little")
+                new = (cur + delta) % (1 << (8 * ts_))
+                newdata = data[:off] + new.to_bytes(ts_, "little") + data[off + ts_:]
+                loader = loaders[k % len(loaders)]
+                k += 1
+                desc = f"entry {idx} of {it['key']} ({n} entries) {cur}->{new}"
+                ctx.step(f"offsets: {desc}; {loader}")
+                st, obj = t.load(newdata, loader)
+                ctx.count("offset-edits")
+                if st == "returned":
+                    why = well_formed(t, obj, loader)
+                    ctx.count("data-accepted-wellformed-checks")
+                    if why:
+                        ctx.violation(f"data-accepted-malformed/{it['key']}", f"{loader}: {desc}: {why}")
+
+
 def do_data(ctx, t, data, lay, orig_bytes):
+    do_offsets(ctx, t, data, lay)
     rng = t.rng
     n = 300
     loaders = ["tskit.load", "TableCollection.load", "tskit.load", "TableCollection.load(skip_reference_sequence)"]
